@@ -35,7 +35,9 @@ RULE = ("random factored state spaces (1..3 factors, sizes 1..3), 0..4 basis fun
         "zeros, discount 1/4 1/2 3/4, bases incl. an all-ones basis) run through LinearProgramming and the flat LP over every (s,a); "
         "the returned Q-function is compared with its model and with R + gamma P V_w at every (s,a); object reuse: 15 % of the "
         "cases call ONE FactoredLP object 2..3 times (same inputs, new target, or different bases over the same space) and 8 % use "
-        "ONE LinearProgramming object on two models — every call judged like a call on a fresh object")
+        "ONE LinearProgramming object on two models — every call judged like a call on a fresh object; 30 % of the MDP cases "
+        "have table rows with rare outcomes 2^-8..2^-13 (small non-zero joint transition probabilities), a basis over two state "
+        "factors and scaled rewards/bases; P in the oracle is the exact product of the case's table entries (C14 model)")
 
 
 def L(xs): return "%d %s" % (len(xs), " ".join(map(str, xs))) if xs else "0"
@@ -126,12 +128,76 @@ def rdist(rng, n):
     return ["%d/4" % k if k % 4 else str(k // 4) for k in parts]
 
 
-def gen_mlp(rng):
+def qtok(fr):
+    return str(fr.numerator) if fr.denominator == 1 else "%d/%d" % (fr.numerator, fr.denominator)
+
+
+def rdist_tiny(rng, n):
+    """a probability row with rare outcomes: some entries 2^-j (j = 8..13, each an ordinary probability
+    well above the library's 1e-6 zero test), the rest of the mass on one entry; the product of two or
+    three such entries (a joint transition of several state factors) lies in [2^-39, 2^-16] — around and
+    below 1e-6 — and is exact in double"""
+    from fractions import Fraction as F
+    big = rng.randrange(n)
+    row = [F(0)] * n
+    for i in range(n):
+        if i != big and rng.random() < 0.75:
+            row[i] = F(1, 2 ** rng.randint(8, 13))
+    row[big] = 1 - sum(row)
+    return [qtok(x) for x in row]
+
+
+def _tip(keys, space, f):
+    idx, mult = 0, 1
+    for k in keys:
+        idx += f[k] * mult; mult *= space[k]
+    return idx
+
+
+def _factors(space, i):
+    out = []
+    for d in space:
+        out.append(i % d); i //= d
+    return out
+
+
+def exact_g(S, A, pss, mats, tag, vals):
+    """exact g(s,a) = sum_s1 P(s1|s,a) h(s1) over the DDN (Fractions), for every joint (s,a)"""
+    from fractions import Fraction as F
+    out = []
+    sub = [S[k] for k in tag]
+    for si in range(prod(S)):
+        s = _factors(S, si)
+        for ai in range(prod(A)):
+            a = _factors(A, ai)
+            rows = {}
+            for i in tag:
+                ag, fs = pss[i]
+                aid = _tip(ag, A, a)
+                start = sum(prod(S[k] for k in fs[j]) for j in range(aid))
+                rows[i] = mats[i][start + _tip(fs[aid], S, s)]
+            t = F(0)
+            for x in range(prod(sub)):
+                xs = _factors(sub, x)
+                pr = F(1)
+                for i, xi in zip(tag, xs): pr *= rows[i][xi]
+                t += pr * vals[x]
+            out.append(t)
+    return out
+
+
+def gen_mlp(rng, tiny=False):
     """cooperative factored MDP; with probability 1/2 the structure is a product of independent
-    (state factor, agent) components (disconnected reward/transition structure)"""
-    nS = rng.choice([1, 2, 2, 3])
+    (state factor, agent) components (disconnected reward/transition structure).
+    tiny=True: >= 2 state factors, connected structure, conditional probability rows with rare outcomes
+    (2^-8 .. 2^-13) so that JOINT transitions have small non-zero probabilities (products down to
+    ~1e-9 and below), at least one basis over two state factors, and (half of the cases) large exactly
+    representable reward / basis values (scale 2^6 .. 2^10: larger spreads make lp_solve itself inaccurate); bases whose exact back-projection would
+    have a non-zero entry within the code's own 1e-6 sparsity skip are redrawn"""
+    from fractions import Fraction as F
+    nS = rng.choice([2, 2, 3]) if tiny else rng.choice([1, 2, 2, 3])
     S = [rng.choice([2, 2, 3]) for _ in range(nS)]
-    disconnected = nS >= 2 and rng.random() < 0.5
+    disconnected = (not tiny) and nS >= 2 and rng.random() < 0.5
     if disconnected:
         nA = min(nS, 2) if rng.random() < 0.7 else 1
     else:
@@ -146,10 +212,13 @@ def gen_mlp(rng):
             ag = rkeys(rng, nA)
             fs = [rkeys(rng, nS, 2) for _ in range(prod(A[k] for k in ag))]
         pss.append((ag, fs))
-    mats = []
+    mats = []; matv = []
     for i, (ag, fs) in enumerate(pss):
         rows = sum(prod(S[k] for k in f) for f in fs)
-        mats.append("%d %d %s" % (rows, S[i], " ".join(" ".join(rdist(rng, S[i])) for _ in range(rows))))
+        rr = [(rdist_tiny(rng, S[i]) if tiny and rng.random() < 0.7 else rdist(rng, S[i])) for _ in range(rows)]
+        matv.append([[F(x) for x in r] for r in rr])
+        mats.append("%d %d %s" % (rows, S[i], " ".join(" ".join(r) for r in rr)))
+    rscale = rng.choice([1, 2 ** 6, 2 ** 10]) if tiny else 1
     # rewards
     R = []
     for j in range(rng.choice([1, 2, 2, 3])):
@@ -159,6 +228,7 @@ def gen_mlp(rng):
             tag = rkeys(rng, nS, 2); atag = rkeys(rng, nA)
         rows = prod(S[k] for k in tag); cols = prod(A[k] for k in atag)
         vals = [rng.choice(["0", "0", dy(rng, -8, 8)]) for _ in range(rows * cols)]
+        if rscale != 1: vals = [qtok(F(v) * rscale) for v in vals]
         R.append("%s %s %d %d %s" % (L(tag), L(atag), rows, cols, " ".join(vals)))
     gam = rng.choice(["1/2", "3/4", "1/4"])
     # basis functions: an all-ones basis on one factor keeps the LP feasible (V can dominate); the
@@ -166,16 +236,29 @@ def gen_mlp(rng):
     H = []
     c0 = rng.randrange(nS)
     H.append("%s %s" % (L([c0]), L(["1"] * S[c0])))
-    for _ in range(rng.choice([0, 1, 1, 2, 3])):
-        if disconnected:
-            tag = [rng.randrange(nS)]
-        else:
-            tag = rkeys(rng, nS, 2)
-        n = prod(S[k] for k in tag)
-        if rng.random() < 0.6:
-            one = rng.randrange(n); vals = ["1" if i == one else "0" for i in range(n)]
-        else:
-            vals = [dy(rng, -4, 8) for _ in range(n)]
+    nH = rng.choice([1, 1, 2, 3]) if tiny else rng.choice([0, 1, 1, 2, 3])
+    for j in range(nH):
+        for attempt in range(20):
+            if disconnected:
+                tag = [rng.randrange(nS)]
+            elif tiny and j == 0:
+                tag = sorted(rng.sample(range(nS), 2))
+            else:
+                tag = rkeys(rng, nS, 2)
+            n = prod(S[k] for k in tag)
+            u = rng.random()
+            if u < (0.25 if tiny else 0.6):
+                one = rng.randrange(n); vals = ["1" if i == one else "0" for i in range(n)]
+            else:
+                vals = [dy(rng, -4, 8) for _ in range(n)]
+            if tiny:
+                # un-normalised bases (a common scale; spreads of 2^10 and more inside one basis make
+                # lp_solve itself report well-posed systems unbounded, which is outside the property)
+                if rng.random() < 0.5:
+                    sc = rng.choice([2, 8, 16]); vals = [qtok(F(x) * sc) for x in vals]
+                gv = exact_g(S, A, pss, matv, tag, [F(x) for x in vals])
+                if any(x != 0 and abs(x) <= F(1, 10 ** 6) for x in gv): continue
+            break
         H.append("%s %s" % (L(tag), L(vals)))
     rng.shuffle(H)
     return "mlp %s %s %s %s %d %s %s %d %s" % (L(S), L(A), " ".join("%s %d %s" % (L(ag), len(fs), " ".join(L(f) for f in fs)) for ag, fs in pss),
@@ -189,8 +272,8 @@ def gen(rng, tier):
         u = rng.random()
         if u < 0.45: out.append(gen_flp(rng))
         elif u < 0.6: out.append(gen_flpr(rng))
-        elif u < 0.92: out.append(gen_mlp(rng))
+        elif u < 0.92: out.append(gen_mlp(rng, tiny=rng.random() < 0.3))
         else:
             # ONE LinearProgramming object used on two different models
-            out.append("mlpr 2 %s %s" % (gen_mlp(rng)[4:], gen_mlp(rng)[4:]))
+            out.append("mlpr 2 %s %s" % (gen_mlp(rng, tiny=rng.random() < 0.2)[4:], gen_mlp(rng)[4:]))
     return out
